@@ -1,0 +1,28 @@
+//go:build verif
+
+package vm
+
+import (
+	"context"
+
+	"git.defalsify.org/vise.git/cache"
+	"git.defalsify.org/vise.git/state"
+)
+
+// Verification hooks (build tag verif): expose private constants and decoders
+// unchanged. No logic lives here.
+
+const VerifMaxOpcode = _MAX
+
+func VerifInputRegexStr() string { return inputRegexStr }
+func VerifCtrlRegexStr() string  { return ctrlRegexStr }
+func VerifSymRegexStr() string   { return symRegexStr }
+
+func VerifIntSplit(b []byte) (uint32, []byte, error)         { return intSplit(b) }
+func VerifInstructionSplit(b []byte) (string, []byte, error) { return instructionSplit(b) }
+func VerifOpSplit(b []byte) (Opcode, []byte, error)          { return opSplit(b) }
+func VerifValidTarget(target []byte) bool                    { return valid(target) }
+
+func VerifApplyTarget(target []byte, st *state.State, ca cache.Memory, ctx context.Context) (string, uint16, error) {
+	return applyTarget(target, st, ca, ctx)
+}
